@@ -33,12 +33,16 @@ def check(ctx, tier):
     mean_rules(ctx, tk)
     from .C17 import first_match
     first_match(ctx, "C05.f", ctx.func(RA + "argmax"))
+    negation_trick(ctx, tk)
     coh = ctx.cached("coherence", lambda: Coherence(tk))
     report(coh, "C05.e", funcs=[RA + n for n in ("_reduce", "__array_ufunc__", "mean", "sum", "argmax", "argmin")])
     reach = sorted(tk.R.reachable([RA + n for n in ("sum", "prod", "mean", "all", "any", "max", "min", "argmax", "argmin", "_reduce")]))
     fs = [ctx.program.funcs[q] for q in reach if q.startswith("raggedarray.RaggedArray.") or q.startswith("raggedarray.reduction")]
     W.report(ctx, tk, "C05.b", fs)
     W.report_wrappers(ctx, tk, "C05.b")
+    tk.purity("C05.p", [ctx.func(q) for q in ['raggedarray.RaggedArray.sum', 'raggedarray.RaggedArray.prod', 'raggedarray.RaggedArray.mean', 'raggedarray.RaggedArray.all', 'raggedarray.RaggedArray.any', 'raggedarray.RaggedArray.max', 'raggedarray.RaggedArray.min', 'raggedarray.RaggedArray.argmax', 'raggedarray.RaggedArray.argmin', 'raggedarray.RaggedArray._reduce']], "the operation does not write into its operands' buffers", content_only=True)
+    from .. import hazards as _hz, scopes as _sc
+    _hz.generic(ctx, tk, "C05.z", _sc.scope(tk, "C05"))
     return {}
 
 
@@ -84,6 +88,12 @@ def reduce_hazards(ctx, tk):
             okp = any(fa.cfg.can_reach(n, [pn]) for pn, _ in pads)
             ctx.decide("C05.a", f, "the trimmed result is padded back to one entry per row", True if okp else False,
                        "no np.pad after the trimmed reduceat: trailing empty rows are missing from the result", node=c.node, key="pad-back", engine="E1")
+        elif any(np_call(a, {"minimum", "clip"}) for a in alts(idx)):
+            ctx.violated("C05.a", f, "reduceat segments end where the next row starts: the row starts are used unmodified (trimmed, never clamped)",
+                         "`%s`: reduceat reduces a[idx[i]:idx[i+1]]; clamping the start of a trailing empty row to size-1 ends the last non-empty row one "
+                         "element early ([[1, 2], [3, 4], []] sums to [3, 3, 0])" % (idx,), node=c.node, key="clamped", engine="KB")
+        else:
+            ctx.unknown("C05.a", f, "reduceat index is the (trimmed) row starts", "index %s" % (idx,), node=c.node, key="index-form", engine="KB")
     # identity used as a pad value must not be None
     for n, c in find_calls(fa, lambda c: np_call(c, {"pad"})):
         cv = dict(c.a[2]).get("constant_values")
@@ -311,3 +321,33 @@ def mean_rules(ctx, tk):
                             kinds.add("?")
                     ok = True if kinds == {"col", "row"} else (False if any(k.endswith("wrong-branch") for k in kinds) else None)
                 ctx.decide("C05.e", m, "column means divide by col_counts(), row means by the row lengths", ok, "divisor %s" % (div,), node=r.ast, key="divisor", engine="E6")
+
+
+def negation_trick(ctx, tk):
+    """KB hazard: arithmetic negation does not reverse the order of unsigned integers (0 stays smallest, the rest
+    wraps), of the most negative signed value, and is undefined for booleans - so min/argmin must not be
+    computed as max/argmax of the negated array"""
+    ra = ctx.program.cls("raggedarray.RaggedArray")
+    for name in ("min", "argmin", "max", "argmax"):
+        m = ra.lookup(name)
+        if m is None:
+            continue
+        fa = ctx.fa(m)
+        selfn = m.params[0]
+        what = "%s orders the elements by comparison, not through arithmetic negation" % name
+        bad = None
+        for n in fa.cfg.stmts():
+            for e in ([n.ast.value] if n.kind == "stmt" and isinstance(n.ast, (ast.Return, ast.Assign)) and n.ast.value is not None else []):
+                tm = fa.term(e, n)
+                for x in walk(tm):
+                    if x.k == "call" and x.a[0].k == "attr" and x.a[0].a[1] in ("max", "argmax", "min", "argmin"):
+                        recv = x.a[0].a[0]
+                        if recv.k == "un" and recv.a[0] == "-" and any(y.k == "param" and y.a[0] == selfn for y in walk(recv)):
+                            bad = (x, e)
+                    if np_call(x, {"max", "argmax", "min", "argmin", "maximum", "minimum"}) and x.a[1] and x.a[1][0].k == "un" and x.a[1][0].a[0] == "-":
+                        bad = (x, e)
+        if bad:
+            ctx.violated("C05.g", m, what, "`%s`: for unsigned rows containing 0, for the most negative signed value and for booleans negation is not "
+                         "order-reversing (uint8 [3, 0, 5]: -x = [253, 0, 251], so the 'minimum' is found at 3)" % (bad[0],), node=bad[1], engine="KB")
+        else:
+            ctx.holds("C05.g", m, what, engine="KB")
